@@ -1,4 +1,4 @@
-(* Tie T2, proofs: the C++ bodies of the guard functions, as re-translated from /repo on this run (gen/GenCode.v), evaluated with the
+(* Tie T2, bridge lemmas and the generic proof tactic: the C++ bodies of the guard functions, as re-translated from /repo on this run (gen/GenCode.v), evaluated with the
    checked semantics of Cir.v, never read outside the buffer and return what the hand-written models of Packet.v / Decoder.v / Encoder.v
    return - for every buffer and size. Accessor calls inside those bodies are bridged reflectively: the bit-vector model of the accessor
    (tie T) applied to the memory image made of the buffer's bytes is compared by Bv.check_eq with a byte-level expression. *)
@@ -229,18 +229,6 @@ Definition penv (d : list Z) : nat -> Z := env_of_list [0; zlen d].
 Lemma sub_mod64 n k : 0 <= k <= n -> n < 2 ^ 64 -> (n - k) mod 2 ^ 64 = n - k.
 Proof. intros. apply Z.mod_small. lia. Qed.
 
-Theorem code_lin d : bytes_ok d -> zlen d < 2 ^ 64 ->
-  ceval gen_reads d (penv d) code_LinPayload_isValidPayload = Ok (b2z (valid_lin d)).
-Proof.
-  intros Hd Hn. unfold code_LinPayload_isValidPayload, valid_lin, penv.
-  cbn [ceval rbind env_of_list cmp_eval].
-  destruct (Z.leb_spec 8 (zlen d)) as [L|G]; cbn [b2z andb Z.eqb rbind]; [|reflexivity].
-  rewrite acc_lin_dl by (assumption || lia). cbn [rbind wrap binop_eval fit cmp_eval].
-  rewrite sub_mod64 by lia. rewrite byte_mod by (try apply nb_ok; assumption || lia).
-  rewrite u8_nb. change (Z.to_nat 7) with 7%nat.
-  destruct (nb d 0 7 <=? zlen d - 8); reflexivity.
-Qed.
-
 Lemma two_byte_sweep (P : Z -> Z -> bool) :
   forallb (fun a => forallb (fun b => P a b) (map Z.of_nat (seq 0 256))) (map Z.of_nat (seq 0 256)) = true ->
   forall a b, byte_ok a -> byte_ok b -> P a b = true.
@@ -300,117 +288,10 @@ Proof.
   cbn [seq map Nat.add]. unfold be_dec. cbn [be_dec_acc]. unfold nb. cbn [Z.to_nat Nat.add]. repeat split; lia.
 Qed.
 
-Theorem code_valid_packet d : bytes_ok d -> zlen d < 2 ^ 64 ->
-  ceval gen_reads d (penv d) code_Packet_isValidPacket = Ok (b2z (valid_packet d (zlen d))).
-Proof.
-  intros Hd Hn. unfold code_Packet_isValidPacket, valid_packet, penv.
-  cbn [ceval rbind env_of_list cmp_eval].
-  destruct (Z.leb_spec 16 (zlen d)) as [L|G]; cbn [b2z andb Z.eqb rbind]; [|reflexivity].
-  destruct (mhdr_fields d L) as (Ef & Et & El). rewrite Ef, Et, El.
-  pose proof (two_bytes_range _ _ (nb_ok d 0 14 Hd) (nb_ok d 0 15 Hd)) as R.
-  pose proof (nb_ok d 0 13 Hd) as R13. unfold byte_ok in R13.
-  rewrite acc_mh_plen by (assumption || lia). cbn [rbind wrap binop_eval fit cmp_eval].
-  rewrite sub_mod64 by lia. rewrite (Z.mod_small _ (2 ^ 64)) by lia.
-  destruct (nb d 0 14 * 256 + nb d 0 15 <=? zlen d - 16); cbn [b2z andb Z.eqb rbind negb]; [|reflexivity].
-  rewrite acc_mh_errflag by (assumption || lia). cbn [rbind].
-  destruct (Z.land (nb d 0 12) 64 =? 0); cbn [b2z andb Z.eqb rbind negb]; [|reflexivity].
-  rewrite acc_mh_ptype by (assumption || lia). cbn [rbind wrap].
-  replace ((nb d 0 13 + 2 ^ (32 - 1)) mod 2 ^ 32 - 2 ^ (32 - 1)) with (nb d 0 13)
-    by (rewrite Z.mod_small by (change (2 ^ (32 - 1)) with 2147483648; change (2 ^ 32) with 4294967296; lia); lia).
-  cbn [cmp_eval]. destruct (nb d 0 13 =? 0); reflexivity.
-Qed.
-
 Lemma land_le_r x m : 0 <= m -> 0 <= Z.land x m <= m.
 Proof.
   intros H. apply Z.ldiff_le; [assumption|]. apply Z.bits_inj'. intros i Hi.
   rewrite Z.ldiff_spec, Z.land_spec, Z.bits_0. destruct (Z.testbit x i), (Z.testbit m i); reflexivity.
-Qed.
-
-Ltac wrap32 x := replace ((x + 2 ^ (32 - 1)) mod 2 ^ 32 - 2 ^ (32 - 1)) with x
-    by (rewrite Z.mod_small by (change (2 ^ (32 - 1)) with 2147483648; change (2 ^ 32) with 4294967296; lia); lia).
-
-Theorem code_can d : bytes_ok d -> zlen d < 2 ^ 64 ->
-  ceval gen_reads d (penv d) code_CanPayloadBase_isValidPayload = Ok (b2z (valid_can d)).
-Proof.
-  intros Hd Hn. unfold code_CanPayloadBase_isValidPayload, valid_can, penv.
-  cbn [ceval rbind env_of_list cmp_eval].
-  destruct (Z.leb_spec 16 (zlen d)) as [L|G]; cbn [b2z andb Z.eqb rbind]; [|reflexivity].
-  rewrite !u16_nb, u8_nb by lia. change (Z.to_nat 0) with 0%nat. change (Z.to_nat 12) with 12%nat. change (Z.to_nat 15) with 15%nat.
-  rewrite acc_can_err by (assumption || lia). cbn [rbind].
-  destruct (Z.land (nb d 0 0 * 256 + nb d 0 1) 1023 =? 0); cbn [b2z andb Z.eqb rbind negb]; [|reflexivity].
-  destruct (nb d 0 12 * 256 + nb d 0 13 =? 0); cbn [b2z andb Z.eqb rbind negb]; [|reflexivity].
-  rewrite acc_can_dl by (assumption || lia). cbn [rbind wrap binop_eval fit cmp_eval].
-  rewrite sub_mod64 by lia. rewrite byte_mod by (try apply nb_ok; assumption || lia).
-  destruct (nb d 0 15 <=? zlen d - 16); reflexivity.
-Qed.
-
-Theorem code_eth d : bytes_ok d -> zlen d < 2 ^ 64 ->
-  ceval gen_reads d (penv d) code_EthernetPayload_isValidPayload = Ok (b2z (valid_eth d)).
-Proof.
-  intros Hd Hn. unfold code_EthernetPayload_isValidPayload, valid_eth, penv.
-  cbn [ceval rbind env_of_list cmp_eval].
-  destruct (Z.leb_spec 6 (zlen d)) as [L|G]; cbn [b2z andb Z.eqb rbind]; [|reflexivity].
-  rewrite !u16_nb by lia. change (Z.to_nat 0) with 0%nat. change (Z.to_nat 4) with 4%nat.
-  pose proof (two_bytes_range _ _ (nb_ok d 0 0 Hd) (nb_ok d 0 1 Hd)) as R0.
-  pose proof (two_bytes_range _ _ (nb_ok d 0 4 Hd) (nb_ok d 0 5 Hd)) as R4.
-  rewrite acc_eth_flags by (assumption || lia). cbn [rbind wrap binop_eval fit cmp_eval].
-  wrap32 (nb d 0 0 * 256 + nb d 0 1).
-  pose proof (land_le_r (nb d 0 0 * 256 + nb d 0 1) 59 ltac:(lia)) as B59.
-  replace (- 2 ^ (32 - 1) <=? Z.land (nb d 0 0 * 256 + nb d 0 1) 59) with true by (symmetry; apply Z.leb_le; change (2 ^ (32 - 1)) with 2147483648; lia).
-  replace (Z.land (nb d 0 0 * 256 + nb d 0 1) 59 <? 2 ^ (32 - 1)) with true by (symmetry; apply Z.ltb_lt; change (2 ^ (32 - 1)) with 2147483648; lia).
-  cbn [andb rbind cmp_eval].
-  destruct (Z.land (nb d 0 0 * 256 + nb d 0 1) 59 =? 0); cbn [b2z andb Z.eqb rbind negb]; [|reflexivity].
-  rewrite acc_eth_dl by (assumption || lia). cbn [rbind wrap binop_eval fit cmp_eval].
-  rewrite sub_mod64 by lia. rewrite (Z.mod_small _ (2 ^ 64)) by lia.
-  destruct (nb d 0 4 * 256 + nb d 0 5 <=? zlen d - 6); reflexivity.
-Qed.
-
-Theorem code_analog d : bytes_ok d -> zlen d < 2 ^ 64 ->
-  ceval gen_reads d (penv d) code_AnalogPayload_isValidPayload = Ok (b2z (valid_analog d)).
-Proof.
-  intros Hd Hn. unfold code_AnalogPayload_isValidPayload, valid_analog, penv.
-  cbn [ceval rbind env_of_list cmp_eval].
-  destruct (Z.leb_spec 16 (zlen d)) as [L|G]; cbn [b2z andb Z.eqb rbind]; [|reflexivity].
-  rewrite !u16_nb by lia. change (Z.to_nat 0) with 0%nat.
-  rewrite !acc_an_dt by (assumption || lia). cbn [rbind cmp_eval].
-  assert (E : forall a b, byte_ok a -> byte_ok b ->
-     ((Z.land (a + b * 256) 768 =? 0) || (Z.land (a + b * 256) 768 =? 256)) = ((Z.land (a * 256 + b) 3 =? 0) || (Z.land (a * 256 + b) 3 =? 1))).
-  { intros a b Ha Hb. apply eqb_prop.
-    apply (two_byte_sweep (fun a b => eqb ((Z.land (a + b * 256) 768 =? 0) || (Z.land (a + b * 256) 768 =? 256))
-                                          ((Z.land (a * 256 + b) 3 =? 0) || (Z.land (a * 256 + b) 3 =? 1)))); [vm_compute; reflexivity|assumption|assumption]. }
-  rewrite <- (E _ _ (nb_ok d 0 0 Hd) (nb_ok d 0 1 Hd)).
-  destruct (Z.land (nb d 0 0 + nb d 0 1 * 256) 768 =? 0); cbn [b2z Z.eqb rbind orb negb]; [reflexivity|].
-  rewrite ?acc_an_dt by (assumption || lia). cbn [rbind cmp_eval].
-  destruct (Z.land (nb d 0 0 + nb d 0 1 * 256) 768 =? 256); reflexivity.
-Qed.
-
-(* Decoder::isSegmentedPacket / isFirstSegment (called on messages that isValidPacket accepted: 16 <= size) *)
-Theorem code_is_segmented d : bytes_ok d -> 16 <= zlen d ->
-  ceval gen_reads d (penv d) code_Decoder_isSegmentedPacket = Ok (b2z (negb (Z.land (h_flags (parse_mhdr d)) 12 =? 0))).
-Proof.
-  intros Hd L. destruct (mhdr_fields d L) as (Ef & _ & _). rewrite Ef.
-  unfold code_Decoder_isSegmentedPacket. cbn [ceval rbind].
-  rewrite acc_mh_seg by (assumption || lia). cbn [rbind cmp_eval]. reflexivity.
-Qed.
-Theorem code_is_first d : bytes_ok d -> 16 <= zlen d ->
-  ceval gen_reads d (penv d) code_Decoder_isFirstSegment = Ok (b2z (Z.land (h_flags (parse_mhdr d)) 12 =? 4)).
-Proof.
-  intros Hd L. destruct (mhdr_fields d L) as (Ef & _ & _). rewrite Ef.
-  unfold code_Decoder_isFirstSegment. cbn [ceval rbind].
-  rewrite acc_mh_seg by (assumption || lia). cbn [rbind cmp_eval]. reflexivity.
-Qed.
-
-(* Encoder::buildSegmentationFlag(isSegmented, segmentInd, bytesToAdd, payloadSize, currentPayloadPos): the flag rule of Encoder.cloop *)
-Definition seg_flag (seg : bool) (k pos n L : Z) : Z := if seg then (if k =? 0 then 4 else if pos + n =? L then 12 else 8) else 0.
-Theorem code_seg_flag (seg : bool) k n L pos : 0 <= n < 65536 -> 0 <= L < 2 ^ 64 -> 0 <= pos -> pos + n < 2 ^ 64 ->
-  ceval gen_reads [] (env_of_list [b2z seg; k; n; L; pos]) code_Encoder_buildSegmentationFlag = Ok (seg_flag seg k pos n L).
-Proof.
-  intros Hn HL Hp Hpn. unfold code_Encoder_buildSegmentationFlag, seg_flag.
-  cbn [ceval rbind env_of_list upd Nat.eqb].
-  destruct seg; cbn [b2z Z.eqb ceval rbind cmp_eval upd Nat.eqb]; [|reflexivity].
-  destruct (k =? 0); cbn [b2z Z.eqb ceval rbind upd Nat.eqb]; [reflexivity|].
-  cbn [wrap binop_eval fit]. rewrite (Z.mod_small n) by lia. rewrite (Z.mod_small (pos + n)) by lia.
-  cbn [rbind cmp_eval]. destruct (pos + n =? L); reflexivity.
 Qed.
 
 (* ---------- validators that walk length-prefixed blocks ---------- *)
@@ -448,84 +329,116 @@ Proof.
   change (256 ^ 2) with 65536 in *. lia.
 Qed.
 
-Ltac m64 := rewrite ?(Z.mod_small _ (2 ^ 64)) by lia.
-Ltac rdc := cbn [ceval rbind env_of_list cmp_eval upd Nat.eqb binop_eval fit b2z Z.eqb negb andb orb wrap].
-Ltac rd16_at p := erewrite (ceval_rd16 _ _ _ p); [ | assumption | reflexivity | lia | lia | lia ].
 
-Theorem code_if d : bytes_ok d -> zlen d < 2 ^ 64 ->
-  ceval gen_reads d (penv d) code_InterfacePayload_isValidPayload = Ok (b2z (valid_if d)).
+(* ---------- the model's validators in the vocabulary of the accessor lemmas ---------- *)
+Lemma valid_lin_alt d : valid_lin d = (8 <=? zlen d) && (nb d 0 7 <=? zlen d - 8).
+Proof. reflexivity. Qed.
+Lemma valid_can_alt d : valid_can d =
+  (16 <=? zlen d) && (Z.land (nb d 0 0 * 256 + nb d 0 1) 1023 =? 0) && (nb d 0 12 * 256 + nb d 0 13 =? 0) && (nb d 0 15 <=? zlen d - 16).
 Proof.
-  intros Hd Hn. unfold code_InterfacePayload_isValidPayload, valid_if, penv. fold_rd16.
-  cbn [ceval rbind env_of_list cmp_eval upd Nat.eqb].
-  destruct (Z.ltb_spec (zlen d) 36) as [L|G].
-  { rdc. replace (36 <=? zlen d) with false by (symmetry; apply Z.leb_gt; lia). reflexivity. }
-  replace (36 <=? zlen d) with true by (symmetry; apply Z.leb_le; lia).
-  rdc. rewrite acc_if_status by (assumption || lia). rdc.
-  rewrite u8_nb. change (Z.to_nat 29) with 29%nat.
-  destruct (Z.ltb_spec 2 (nb d 0 29)) as [S|S].
-  { rdc. replace (nb d 0 29 <=? 2) with false by (symmetry; apply Z.leb_gt; lia). reflexivity. }
-  replace (nb d 0 29 <=? 2) with true by (symmetry; apply Z.leb_le; lia).
-  rdc. m64.
-  destruct (Z.ltb_spec (zlen d - 36) 2) as [A|A]; rdc; [reflexivity|].
-  rd16_at 36. rdc.
-  pose proof (u16_range d 36 Hd) as R1. set (c := u16 d 36) in *.
-  replace (2 =? 0) with false by reflexivity. rdc.
-  rewrite Z.rem_mod_nonneg by lia. m64.
-  assert (0 <= c mod 2 < 2) by (apply Z.mod_pos_bound; lia). m64.
-  destruct (Z.ltb_spec (zlen d - 38) (c + c mod 2)) as [A2|A2].
-  { replace (zlen d - (36 + 2)) with (zlen d - 38) by lia. destruct (Z.ltb_spec (zlen d - 38) (c + c mod 2)); [|lia]. rdc. reflexivity. }
-  replace (zlen d - (36 + 2)) with (zlen d - 38) by lia. destruct (Z.ltb_spec (zlen d - 38) (c + c mod 2)); [lia|]. rdc.
-  m64. replace (36 + 2 + (c + c mod 2)) with (38 + (c + c mod 2)) by lia.
-  destruct (Z.ltb_spec (zlen d - (38 + (c + c mod 2))) 2) as [A3|A3]; rdc; [reflexivity|].
-  rd16_at (38 + (c + c mod 2)). rdc. m64.
-  replace (zlen d - (38 + (c + c mod 2) + 2)) with (zlen d - (38 + (c + c mod 2) + 2)) by lia.
-  reflexivity.
+  unfold valid_can. destruct (Z.leb_spec 16 (zlen d)) as [L|G]; [|reflexivity].
+  rewrite !u16_nb by lia. reflexivity.
 Qed.
+Lemma valid_eth_alt d : valid_eth d =
+  (6 <=? zlen d) && (Z.land (nb d 0 0 * 256 + nb d 0 1) 59 =? 0) && (nb d 0 4 * 256 + nb d 0 5 <=? zlen d - 6).
+Proof.
+  unfold valid_eth. destruct (Z.leb_spec 6 (zlen d)) as [L|G]; [|reflexivity].
+  rewrite !u16_nb by lia. reflexivity.
+Qed.
+Lemma analog_dt_le a b : byte_ok a -> byte_ok b ->
+  ((Z.land (a * 256 + b) 3 =? 0) || (Z.land (a * 256 + b) 3 =? 1)) = ((Z.land (a + b * 256) 768 =? 0) || (Z.land (a + b * 256) 768 =? 256)).
+Proof.
+  intros Ha Hb. apply eqb_prop.
+  apply (two_byte_sweep (fun a b => eqb ((Z.land (a * 256 + b) 3 =? 0) || (Z.land (a * 256 + b) 3 =? 1))
+                                        ((Z.land (a + b * 256) 768 =? 0) || (Z.land (a + b * 256) 768 =? 256)))); [vm_compute; reflexivity|assumption|assumption].
+Qed.
+Lemma valid_analog_alt d : bytes_ok d -> valid_analog d =
+  (16 <=? zlen d) && ((Z.land (nb d 0 0 + nb d 0 1 * 256) 768 =? 0) || (Z.land (nb d 0 0 + nb d 0 1 * 256) 768 =? 256)).
+Proof.
+  intros Hd. unfold valid_analog. destruct (Z.leb_spec 16 (zlen d)) as [L|G]; [|reflexivity].
+  rewrite !u16_nb by lia. cbn [andb]. change (Z.to_nat 0) with 0%nat. apply analog_dt_le; apply nb_ok; assumption.
+Qed.
+Lemma valid_packet_alt d : valid_packet d (zlen d) =
+  (16 <=? zlen d) && ((nb d 0 14 * 256 + nb d 0 15 <=? zlen d - 16) && (Z.land (nb d 0 12) 64 =? 0) && negb (nb d 0 13 =? 0)).
+Proof.
+  unfold valid_packet. destruct (Z.leb_spec 16 (zlen d)) as [L|G]; [|reflexivity].
+  destruct (mhdr_fields d L) as (Ef & Et & El). rewrite Ef, Et, El. reflexivity.
+Qed.
+Lemma valid_if_alt d : valid_if d =
+  (36 <=? zlen d) && (nb d 0 29 <=? 2) &&
+  (if zlen d - 36 <? 2 then false else
+   if zlen d - 38 <? u16 d 36 + u16 d 36 mod 2 then false else
+   if zlen d - (38 + (u16 d 36 + u16 d 36 mod 2)) <? 2 then false else
+   u16 d (38 + (u16 d 36 + u16 d 36 mod 2)) <=? zlen d - (38 + (u16 d 36 + u16 d 36 mod 2) + 2)).
+Proof. reflexivity. Qed.
 
+(* ---------- the generic proof tactic: symbolic execution of a translated body against the model ---------- *)
+Lemma b2z_eqb0 b : (b2z b =? 0) = negb b. Proof. destruct b; reflexivity. Qed.
+Lemma b2z_01 b : 0 <= b2z b <= 1. Proof. destruct b; simpl; lia. Qed.
+
+Ltac m64 := rewrite ?(Z.mod_small _ (2 ^ 64)) by lia.
+Ltac rdc := cbn [ceval rbind env_of_list cmp_eval upd Nat.eqb binop_eval fit b2z Z.eqb negb andb orb wrap is_some].
 Ltac settle := repeat match goal with
    | |- context [?x <? ?y] => first [replace (x <? y) with true by (symmetry; apply Z.ltb_lt; lia) | replace (x <? y) with false by (symmetry; apply Z.ltb_ge; lia)]
-   | |- context [?x <=? ?y] => first [replace (x <=? y) with true by (symmetry; apply Z.leb_le; lia) | replace (x <=? y) with false by (symmetry; apply Z.leb_gt; lia)] end.
-Ltac split_lt := match goal with |- context [b2z (?a <? ?b)] => destruct (Z.ltb_spec a b) end; settle; rdc; cbn [is_some]; try reflexivity.
+   | |- context [?x <=? ?y] => first [replace (x <=? y) with true by (symmetry; apply Z.leb_le; lia) | replace (x <=? y) with false by (symmetry; apply Z.leb_gt; lia)]
+   | |- context [?x =? ?y] => first [replace (x =? y) with true by (symmetry; apply Z.eqb_eq; lia) | replace (x =? y) with false by (symmetry; apply Z.eqb_neq; lia)] end.
 Ltac read16 := match goal with |- context [ceval ?r ?d ?env (rd16 ?pe)] =>
    let v := eval cbn [ceval rbind upd Nat.eqb env_of_list] in (ceval r d env pe) in
    match v with Ok ?p => erewrite (ceval_rd16 d env pe p); [ | assumption | reflexivity | lia | lia | lia ];
         let c := fresh "c" in let R := fresh "R" in pose proof (u16_range d p ltac:(assumption)) as R; set (c := u16 d p) in * end end.
 
-Theorem code_cm d : bytes_ok d -> zlen d < 2 ^ 64 ->
-  ceval gen_reads d (penv d) code_CaptureModulePayload_isValidPayload = Ok (b2z (valid_cm d)).
-Proof.
-  intros Hd Hn. unfold code_CaptureModulePayload_isValidPayload, valid_cm, penv. fold_rd16.
-  cbn [walk]. rdc.
-  destruct (Z.ltb_spec (zlen d) 26) as [L|G]; settle; rdc; [reflexivity|].
-  m64. split_lt. read16. rdc. m64. split_lt. m64.
-  split_lt. read16. rdc. m64. split_lt. m64.
-  split_lt. read16. rdc. m64. split_lt. m64.
-  split_lt. read16. rdc. m64. split_lt. m64.
-  split_lt. read16. rdc. m64. split_lt.
-Qed.
+(* facts lia needs about the atoms of the goal: bytes are bytes, masked values are bounded by their mask *)
+Ltac atom_facts Hd := repeat match goal with
+  | |- context [nb ?d ?o ?i] => lazymatch goal with H : 0 <= nb d o i < 256 |- _ => fail | _ => pose proof (nb_ok d o i Hd : 0 <= nb d o i < 256) end
+  | |- context [Z.land ?x ?m] => lazymatch goal with H : 0 <= Z.land x m <= m |- _ => fail | _ => pose proof (land_le_r x m ltac:(lia)) end
+  | |- context [?x mod 2] => lazymatch goal with H : 0 <= x mod 2 < 2 |- _ => fail | _ => pose proof (Z.mod_pos_bound x 2 ltac:(lia)) end
+  end.
+Ltac norm := rdc; repeat (rewrite b2z_eqb0 || rewrite negb_involutive); m64;
+  repeat match goal with
+  | |- context [(?x + 2 ^ (32 - 1)) mod 2 ^ 32 - 2 ^ (32 - 1)] =>
+      replace ((x + 2 ^ (32 - 1)) mod 2 ^ 32 - 2 ^ (32 - 1)) with x
+        by (rewrite Z.mod_small by (change (2 ^ (32 - 1)) with 2147483648; change (2 ^ 32) with 4294967296; lia); lia)
+  | |- context [(- 2 ^ (32 - 1) <=? ?z) && (?z <? 2 ^ (32 - 1))] =>
+      replace ((- 2 ^ (32 - 1) <=? z) && (z <? 2 ^ (32 - 1))) with true
+        by (symmetry; apply andb_true_iff; split; [apply Z.leb_le|apply Z.ltb_lt]; change (2 ^ (32 - 1)) with 2147483648; lia)
+  | |- context [Z.rem ?a 2] => rewrite (Z.rem_mod_nonneg a 2) by lia
+  | |- context [2 =? 0] => change (2 =? 0) with false
+  end; rdc; repeat (rewrite b2z_eqb0 || rewrite negb_involutive).
+Ltac case_on c :=
+  lazymatch c with
+  | negb ?c' => case_on c'
+  | andb ?a _ => case_on a
+  | orb ?a _ => case_on a
+  | ?a <? ?b => destruct (Z.ltb_spec a b)
+  | ?a <=? ?b => destruct (Z.leb_spec a b)
+  | ?a =? ?b => lazymatch a with context [b2z _] => destruct c eqn:? | _ => destruct (Z.eqb_spec a b) end
+  | _ => destruct c eqn:?
+  end.
+(* one step: the translated body is stuck on an accessor call, a 16-bit read, or a condition *)
+Ltac t2_step Hd :=
+  first
+  [ progress (rewrite ?acc_lin_dl, ?acc_mh_plen, ?acc_mh_ptype, ?acc_mh_errflag, ?acc_mh_seg, ?acc_can_dl, ?acc_can_err,
+                      ?acc_if_status, ?acc_eth_flags, ?acc_eth_dl, ?acc_an_dt by (assumption || lia))
+  | read16
+  | match goal with
+    | |- (if negb ?c then _ else _) = _ => case_on c
+    | |- (if ?c then _ else _) = _ => case_on c
+    | |- context [if negb ?c then _ else _] => case_on c
+    | |- context [if ?c then _ else _] => case_on c
+    end ];
+  atom_facts Hd; settle; norm.
+Ltac t2_finish Hd :=
+  atom_facts Hd; settle; norm; try reflexivity;
+  repeat (match goal with
+          | |- context [?a <? ?b] => destruct (Z.ltb_spec a b)
+          | |- context [?a <=? ?b] => destruct (Z.leb_spec a b)
+          | |- context [?a =? ?b] => destruct (Z.eqb_spec a b)
+          end; settle; rdc; try reflexivity);
+  try reflexivity; try (exfalso; lia).
+(* obligations of the translator itself: which of the functions above exist but could not be translated on this run *)
+Definition lost_among (names : list string) : list (string * string) :=
+  filter (fun e => existsb (String.eqb (fst e)) names) gen_code_lost.
 
-(* ---------- summary ---------- *)
-(* every function tie T2 is responsible for was translated on this run *)
-Definition all_translated : bool := match gen_code_lost with [] => true | _ => false end.
-
-(* the translated validator of each typed payload kind (Packet::create's dispatch: 1 CAN, 2 CAN-FD, 3 LIN, 7 analog, 8 Ethernet,
-   49 capture-module status, 50 interface status) *)
-Definition code_of_kind (k : Z) : option cexp :=
-  if k =? 1 then Some code_CanPayloadBase_isValidPayload else if k =? 2 then Some code_CanPayloadBase_isValidPayload
-  else if k =? 3 then Some code_LinPayload_isValidPayload else if k =? 7 then Some code_AnalogPayload_isValidPayload
-  else if k =? 8 then Some code_EthernetPayload_isValidPayload else if k =? 49 then Some code_CaptureModulePayload_isValidPayload
-  else if k =? 50 then Some code_InterfacePayload_isValidPayload else None.
-
-Theorem code_validator_refines d k c : bytes_ok d -> zlen d < 2 ^ 64 -> code_of_kind k = Some c ->
-  ceval gen_reads d (penv d) c = Ok (b2z (valid_kind k d)).
-Proof.
-  intros Hd Hn. unfold code_of_kind, valid_kind.
-  destruct (k =? 1); [intros E; inversion E; apply code_can; assumption|].
-  destruct (k =? 2); [intros E; inversion E; apply code_can; assumption|].
-  destruct (k =? 3); [intros E; inversion E; apply code_lin; assumption|].
-  destruct (k =? 7); [intros E; inversion E; apply code_analog; assumption|].
-  destruct (k =? 8); [intros E; inversion E; apply code_eth; assumption|].
-  destruct (k =? 49); [intros E; inversion E; apply code_cm; assumption|].
-  destruct (k =? 50); [intros E; inversion E; apply code_if; assumption|].
-  discriminate.
-Qed.
+(* a translated body is `Some c`; `None` (the function no longer exists in the sources) leaves nothing to show *)
+Ltac t2_open def := let E := fresh "E" in intros E; unfold def in E; first [discriminate E | inversion E; subst; clear E].
+Ltac t2_solve Hd := fold_rd16; norm; atom_facts Hd; settle; norm; repeat (t2_step Hd); t2_finish Hd.
